@@ -80,6 +80,64 @@ def generate(repo):
     A(f'def interpStart (minwave maxwave : Rat) (num : Int) : Rat := {_expr(src, cw.args[0], env2)}')
     A(f'def interpStop (minwave maxwave : Rat) (num : Int) : Rat := {_expr(src, cw.args[1], env2)}')
     A(f'def interpCount (minwave maxwave : Rat) (num : Int) : Int := {_expr(src, cw.args[2], env2)}')
-    return '\n'.join(L) + '\n', {'assignments': order}
+    # ---- _sampling: which operand's finest spacing each option selects
+    sf = [n for n in tree.body if isinstance(n, ast.FunctionDef) and n.name == '_sampling']
+    if not sf: raise Refuse('_sampling not found')
+    sbody = [st for st in sf[0].body if not (isinstance(st, ast.Expr) and isinstance(st.value, ast.Constant))]
+    if len(sbody) != 1 or not isinstance(sbody[0], ast.If): raise Refuse('_sampling: body is not one if-chain')
+    sel, node = {}, sbody[0]
+    while True:
+        t = ast.unparse(node.test)
+        src_b = ast.unparse(ast.Module(body=node.body, type_ignores=[]))
+        if t == "method == 'min'":
+            tup = [st for st in node.body if isinstance(st, ast.If) and 'isinstance(wave, (list, tuple))' in ast.unparse(st.test)]
+            if not tup or 'for w in wave' not in src_b or 'np.append(dwave, np.diff(w).min())' not in src_b or 'return dwave.min()' not in src_b:
+                raise Refuse("_sampling: 'min' over a tuple of grids is not min over each np.diff(w).min()")
+            sel['min'] = '.minBoth'
+        elif t in ("method == 'left'", "method == 'right'"):
+            ret = [st for st in node.body if isinstance(st, ast.Return)]
+            m_ = ret and __import__('re').fullmatch(r"_sampling\(wave\[(\d)\], method='min'\)", ast.unparse(ret[0].value))
+            if not m_: raise Refuse(f'_sampling: {t} branch')
+            sel[t.split("'")[1]] = f'.operand {m_.group(1)}'
+        elif t == 'np.isscalar(method)':
+            if ast.unparse(node.body[0]) != 'return method': raise Refuse('_sampling: scalar branch')
+            sel['scalar'] = '.given'
+        else:
+            raise Refuse(f'_sampling: test {t}')
+        if len(node.orelse) == 1 and isinstance(node.orelse[0], ast.If): node = node.orelse[0]; continue
+        break
+    if set(sel) != {'min', 'left', 'right', 'scalar'}: raise Refuse(f'_sampling: options {sorted(sel)}')
+    A('\n/-- what `_sampling((w1, w2), option)` selects: the smaller of both operands\' finest spacings, one operand\'s, or the number given -/')
+    A('inductive SamplingSel where\n  | minBoth\n  | operand (i : Nat)\n  | given\nderiving DecidableEq, Repr')
+    for k_, nm in (('min', 'samplingSelMin'), ('left', 'samplingSelLeft'), ('right', 'samplingSelRight'), ('scalar', 'samplingSelScalar')):
+        A(f'def {nm} : SamplingSel := {sel[k_]}')
+    # ---- Spectrum._ufunc wiring
+    cls = [n for n in tree.body if isinstance(n, ast.ClassDef) and n.name == 'Spectrum'][0]
+    uf = [n for n in cls.body if isinstance(n, ast.FunctionDef) and n.name == '_ufunc']
+    if not uf: raise Refuse('Spectrum._ufunc not found')
+    top = [st for st in uf[0].body if isinstance(st, ast.If)]
+    if not top or not (isinstance(top[0].test, ast.Call) and ast.unparse(top[0].test.func) == 'isinstance' and ast.unparse(top[0].test.args[0]) == 'other'): raise Refuse('_ufunc: first dispatch')
+    types = [ast.unparse(e) for e in top[0].test.args[1].elts]
+    sp = top[0].orelse[0] if top[0].orelse and isinstance(top[0].orelse[0], ast.If) else None
+    if sp is None or ast.unparse(sp.test) != 'isinstance(other, Spectrum)': raise Refuse('_ufunc: Spectrum branch')
+    conv = [st for st in sp.body if isinstance(st, ast.If)]
+    if len(conv) != 1 or ast.unparse(conv[0].test) != 'other.waveunit != self.waveunit': raise Refuse('_ufunc: unit test')
+    csrc = [ast.unparse(st) for st in conv[0].body]
+    copies = csrc == ['other = other.copy()', 'other.to(self.waveunit)']
+    writes_self = any(isinstance(n, (ast.Assign, ast.AugAssign)) and any(ast.unparse(t).startswith('self.') for t in (n.targets if isinstance(n, ast.Assign) else [n.target])) for n in ast.walk(uf[0]))
+    ret = [st for st in uf[0].body if isinstance(st, ast.Return)]
+    if len(ret) != 1 or not (isinstance(ret[0].value, ast.Call) and ast.unparse(ret[0].value.func) == 'Spectrum' and len(ret[0].value.args) == 4): raise Refuse('_ufunc: return')
+    ru = [ast.unparse(a) for a in ret[0].value.args[2:]]
+    side = lambda x, attr: 'true' if x == f'self.{attr}' else 'false' if x == f'other.{attr}' else None
+    if side(ru[0], 'waveunit') is None or side(ru[1], 'valueunit') is None: raise Refuse(f'_ufunc: result units {ru}')
+    A('\n/-- `Spectrum._ufunc`: operand kinds combined element-wise on the unchanged grid -/')
+    A('def ufuncElementwiseTypes : List String := [' + ', '.join(f'"{t}"' for t in types) + ']')
+    A('/-- the right operand is converted to the left operand\'s wavelength unit ON A COPY (`other = other.copy(); other.to(self.waveunit)`), and `_ufunc` assigns no attribute of `self` -/')
+    A(f'def ufuncConvertsCopy : Bool := {"true" if copies else "false"}')
+    A(f'def ufuncWritesSelf : Bool := {"true" if writes_self else "false"}')
+    A('/-- the result carries the wavelength / value unit of the left operand (`true`) or of the right one (`false`) -/')
+    A(f'def ufuncResultWaveUnitFromSelf : Bool := {side(ru[0], "waveunit")}')
+    A(f'def ufuncResultValueUnitFromSelf : Bool := {side(ru[1], "valueunit")}')
+    return '\n'.join(L) + '\n', {'assignments': order, 'sampling': sel, 'elementwise': types}
 
 MODULES = [{'name': 'InterpGrid', 'src': SRC, 'generator': generate, 'props': ['C13']}]
